@@ -171,3 +171,20 @@ def requests_C13(docs, emitted, seed, tier):
                 # retention never changes how known fields decode: the plain build of the same document
                 out.append(f"gd {d['name']} {it['name']} bin {idlgen.sexp(w)} => {idlgen.expected(items, it['name'], w)} C13")
     return out
+
+
+def requests_C19(docs, emitted, seed, tier):
+    """every truncation point of valid encodings of every type: live heap before == after a failed decode"""
+    r = random.Random(seed * 389 + 19)
+    out = doc_lines(docs, emitted)
+    per = 4 if tier == "quick" else 25
+    for d in docs:
+        items, types = data_types(d)
+        for it in types:
+            for _ in range(per):
+                v = idlgen.gen_item_value(items, it, r, r.randrange(1, 4))
+                for p in ("bin", "cmp"):
+                    out.append(f"gl {d['name']} {it['name']} {p} {idlgen.sexp(v)}")
+    # the witness of Props/C19.list_arm_leaks, on the real emitted code
+    out.append("gl da Outer bin (struct (1 (struct (1 (i32 5)))) (12 (bool 1)) (7 (bin 00)) (2 (list struct (struct (1 (i32 1)) (2 (bin 6161616161616161616161616161616161616161616161616161616161))) (struct (1 (i32 2))))))")
+    return out
